@@ -73,12 +73,18 @@ def build_uni(sim, mw):
 
 
 # ------------------------------------------------------------------------------------------------- arg helpers
-def pos_of(market, spec):
-    """{"i": k} -> k-th existing position (sorted), {"lo":..,"hi":..} literal."""
+def pos_of(market, spec, sim=None):
+    """{"i": k} -> k-th existing position (sorted), {"lo":..,"hi":..} literal, {"created": k} -> k-th position
+    ever created in this market by an add op (creation order is orientation independent, used by C09)."""
     if spec is None:
         raise HarnessError("position spec missing")
     if "lo" in spec:
         return PositionInfo(int(spec["lo"]), int(spec["hi"]))
+    if "created" in spec:
+        lst = getattr(sim, "created", {}).get(market.market_info.name, []) if sim is not None else []
+        if not lst:
+            return PositionInfo(int(spec.get("lo0", 0)), int(spec.get("hi0", 600)))
+        return lst[int(spec["created"]) % len(lst)]
     keys = sorted(market.positions.keys())
     if not keys:
         return PositionInfo(int(spec.get("lo0", 0)), int(spec.get("hi0", 60)))  # unknown position -> rejection recipe
@@ -101,6 +107,16 @@ def _res(t):
     return list(t) if isinstance(t, tuple) else t
 
 
+def _added(sim, m, r):
+    """remember positions in creation order"""
+    if not hasattr(sim, "created"):
+        sim.created = {}
+    lst = sim.created.setdefault(m.market_info.name, [])
+    if r[0] not in lst:
+        lst.append(r[0])
+    return _res(r)
+
+
 # ------------------------------------------------------------------------------------------------- operations
 @op("uni.add_by_tick")
 def _add_by_tick(sim, m, a):
@@ -114,7 +130,7 @@ def _add_by_tick(sim, m, a):
     if "trim" in a:
         kw["trim_tick"] = bool(a["trim"])
     lo, hi = int(a["lo"]), int(a["hi"])
-    return lambda: _res(m.add_liquidity_by_tick(lo, hi, base, quote, **kw))
+    return lambda: _added(sim, m, m.add_liquidity_by_tick(lo, hi, base, quote, **kw))
 
 
 @op("uni.add")
@@ -122,12 +138,12 @@ def _add(sim, m, a):
     base = amount(sim, a.get("base"))
     quote = amount(sim, a.get("quote"))
     lp, up = D(a["lower_price"]), D(a["upper_price"])
-    return lambda: _res(m.add_liquidity(lp, up, quote, base))
+    return lambda: _added(sim, m, m.add_liquidity(lp, up, quote, base))
 
 
 @op("uni.remove")
 def _remove(sim, m, a):
-    p = pos_of(m, a.get("pos"))
+    p = pos_of(m, a.get("pos"), sim)
     liq = a.get("liq")
     if liq is not None:
         liq = int(amount(sim, liq))
@@ -143,7 +159,7 @@ def _remove(sim, m, a):
 
 @op("uni.collect")
 def _collect(sim, m, a):
-    p = pos_of(m, a.get("pos"))
+    p = pos_of(m, a.get("pos"), sim)
     kw = {}
     if a.get("max0") is not None:
         kw["max_collect_amount0"] = amount(sim, a["max0"])
@@ -185,7 +201,7 @@ def _add_by_value(sim, m, a):
     if "trim" in a:
         kw["trim_tick"] = bool(a["trim"])
     lo, hi = int(a["lo"]), int(a["hi"])
-    return lambda: _res(m.add_liquidity_by_value(lo, hi, val, **kw))
+    return lambda: _added(sim, m, m.add_liquidity_by_value(lo, hi, val, **kw))
 
 
 @op("uni.even_rebalance")
@@ -201,13 +217,13 @@ def _remove_all(sim, m, a):
 
 @op("uni.transfer_out")
 def _tout(sim, m, a):
-    p = pos_of(m, a.get("pos"))
+    p = pos_of(m, a.get("pos"), sim)
     return lambda: m.transfer_position_out(p)
 
 
 @op("uni.transfer_in")
 def _tin(sim, m, a):
-    p = pos_of(m, a.get("pos"))
+    p = pos_of(m, a.get("pos"), sim)
     return lambda: m.transfer_position_in(p)
 
 
@@ -218,7 +234,7 @@ def _read_balance(sim, m, a):
 
 @op("uni.read_position_status")
 def _read_pos(sim, m, a):
-    p = pos_of(m, a.get("pos"))
+    p = pos_of(m, a.get("pos"), sim)
     return lambda: m.get_position_status(p)
 
 
@@ -232,7 +248,7 @@ def _est_amount(sim, m, a):
 @op("uni.estimate_liquidity")
 def _est_liq(sim, m, a):
     v = amount(sim, a.get("value"))
-    p = pos_of(m, a.get("pos"))
+    p = pos_of(m, a.get("pos"), sim)
     return lambda: _res(m.estimate_liquidity(v, p))
 
 
@@ -295,3 +311,15 @@ def gen_uni_market(rng, name, n, tok0, tok1, quote, fee=None, base_price=None, d
         "inAmount1": in1,
         "currentLiquidity": liqs,
     }
+
+
+@op("uni.price_to_tick")
+def _p2t(sim, m, a):
+    p = D(a["price"])
+    return lambda: m.price_to_tick(p)
+
+
+@op("uni.tick_to_price")
+def _t2p(sim, m, a):
+    t = int(a["tick"])
+    return lambda: m.tick_to_price(t)
